@@ -18,6 +18,18 @@ import (
 const cssMinT = load.Mod + "/css.cssMinifier"
 
 func init() {
+	mutant(&Mutant{Name: "c09-template-with-escaped-dollar-hex", Property: "C09", File: "js/util.go",
+		Old: "\t\t\t\t} else if b[i+2] == '2' && b[i+3] == '4' || b[i+2] == '7' && b[i+3]|0x20 == 'b' {\n\t\t\t\t\tallowTemplate = false // $ or {, decoded they may form ${\n", New: "\t\t\t\t} else if b[i+2] == '2' && b[i+3] == '4' {\n\t\t\t\t\tallowTemplate = false // $ or {, decoded they may form ${\n",
+		Rule: "R09.22", Construct: "rules the template out"})
+	mutant(&Mutant{Name: "c09-export-default-leading-function", Property: "C09", File: "js/js.go",
+		Old: "if !isHoistable && !isClass && startsWithFuncOrClass(stmt.Decl) {", New: "if !isHoistable && !isClass && len(m.prev) == 0 {",
+		Rule: "R09.23", Construct: "is tested for a leading function or class"})
+	mutant(&Mutant{Name: "c04-selector-function-arguments-lowercased", Property: "C04", File: "css/css.go",
+		Old: "if isPseudo || !isClass && level == 0 && !isPrefix && !hasLower(val.Data) {", New: "if isPseudo || !isClass && !isPrefix && !hasLower(val.Data) {",
+		Rule: "R04.22", Construct: "not inside the arguments of a function"})
+	mutant(&Mutant{Name: "c04-selector-mixed-case-lowercased", Property: "C04", File: "css/css.go",
+		Old: "if isPseudo || !isClass && level == 0 && !isPrefix && !hasLower(val.Data) {", New: "if isPseudo || !isClass && level == 0 && !isPrefix {",
+		Rule: "R04.22", Construct: "not a mixed-case name"})
 	mutant(&Mutant{Name: "c09-static-numeric-field-joined", Property: "C09", File: "js/js.go",
 		Old: "item.Name.Literal.TokenType != js.StringToken && item.Name.Literal.TokenType != js.PrivateIdentifierToken {", New: "item.Name.Literal.TokenType == js.IdentifierToken {",
 		Rule: "R09.21", Construct: "name is separated from the keyword"})
@@ -106,7 +118,7 @@ func init() {
 		Old2: "\t\t\t\tif css.IsURLUnquoted(uri) {\n\t\t\t\t\tvalues[i].Data = append(append(urlBytes, uri...), ')')", New2: "\t\t\t\tif unquoted {\n\t\t\t\t\tvalues[i].Data = append(append(urlBytes, uri...), ')')",
 		Rule: "R09.8", Construct: "re-examined after"})
 	mutant(&Mutant{Name: "c09-dot-after-number-shortcut", Property: "C09", File: "js/js.go",
-		Old: "\t\tif js.OpMember <= prec || isOptionalGroup(expr.X) {\n\t\t\tm.minifyExpr(expr.X, js.OpMember)", New: "\t\tif lit, ok := expr.X.(*js.LiteralExpr); ok && lit.TokenType == js.DecimalToken {\n\t\t\tm.write(lit.Data)\n\t\t\tm.write(dotBytes)\n\t\t\tm.write(expr.Y.Data)\n\t\t\tbreak\n\t\t}\n\t\tif js.OpMember <= prec || isOptionalGroup(expr.X) {\n\t\t\tm.minifyExpr(expr.X, js.OpMember)",
+		Old: "\t\tif js.OpNew <= prec || isOptionalGroup(expr.X) {\n\t\t\tm.minifyExpr(expr.X, js.OpMember)", New: "\t\tif lit, ok := expr.X.(*js.LiteralExpr); ok && lit.TokenType == js.DecimalToken {\n\t\t\tm.write(lit.Data)\n\t\t\tm.write(dotBytes)\n\t\t\tm.write(expr.Y.Data)\n\t\t\tbreak\n\t\t}\n\t\tif js.OpNew <= prec || isOptionalGroup(expr.X) {\n\t\t\tm.minifyExpr(expr.X, js.OpMember)",
 		Rule: "R09.4", Construct: "property write"})
 	mutant(&Mutant{Name: "c09-throw-without-semicolon", Property: "C09", File: "js/js.go",
 		Old: "\t\tm.write(throwBytes)\n\t\tm.writeSpaceBeforeIdent()\n\t\tm.minifyExpr(stmt.Value, js.OpExpr)\n\t\tm.requireSemicolon()\n", New: "\t\tm.write(throwBytes)\n\t\tm.writeSpaceBeforeIdent()\n\t\tm.minifyExpr(stmt.Value, js.OpExpr)\n",
@@ -229,6 +241,7 @@ func runC04(c *Ctx) {
 	c.r0419(pk)
 	c.r0420("R04.20", []string{"css"})
 	c.r0421(pk)
+	c.r0422(pk)
 	// positions remembered while rewriting a value list (background layers) stay valid: same rule as R10.5, css only
 	c.alsoUnder(map[string]string{"R10.5": "R04.8"}, func(construct string) bool {
 		return strings.HasPrefix(construct, "css.") || strings.HasPrefix(construct, "floor/")
@@ -236,7 +249,7 @@ func runC04(c *Ctx) {
 	// the CSS tables decide which values are rewritten: a unit in optionalZeroDimension that is not a length or angle
 	// (`0fr` → `0`), or a colour name / hex pair that are not the same sRGB colour, changes the computed value
 	c.hexCompaction("R04.14", "css", 3)
-	c.alsoUnder(map[string]string{"R17.units": "R04.12", "R17.colors": "R04.13"}, nil, func() { c.ruleUnits(); c.ruleColors() })
+	c.alsoUnder(map[string]string{"R17.units": "R04.12", "R17.colors": "R04.13", "R17.colorkey": "R04.23"}, nil, func() { c.ruleUnits(); c.ruleColors(); c.ruleColorKey() })
 }
 
 func runC04own(c *Ctx) {
@@ -560,6 +573,8 @@ func runC09own(c *Ctx) {
 	c.r019(pk, "R09.3")
 	c.r094(pk)
 	c.r0921(pk)
+	c.r0922(pk)
+	c.r0923(pk)
 }
 
 // R09.4: `1.a` is not a member access — a property written after a number needs the integer test.
@@ -1643,4 +1658,147 @@ func (c *Ctx) r0421(pk *packages.Package) {
 		}
 	}
 	c.R.Floor(rule, "calls of minify.Number in the NumberToken case", n, 1)
+}
+
+// R04.22: only names that are case-insensitive are lower-cased in a selector.
+func (c *Ctx) r0422(pk *packages.Package) {
+	const rule = "R04.22"
+	c.R.Rule(rule, "Selectors 4 §3.5 / HTML §15.3.8: in an HTML document a type selector matches HTML elements case-insensitively, other elements (SVG's foreignObject, linearGradient, clipPath …) case-sensitively; namespace prefixes, and the arguments of ::part(), :state(), ::highlight(), are case-sensitive; names of pseudo-classes and pseudo-elements are not. In cssMinifier.minifySelectors every path from the head of the token loop to the in-place lower-casing of an identifier (parse.ToLower(val.Data)) either runs through the true outcome of a flag that is assigned from a comparison with css.ColonToken (the name of a pseudo), or passes three tests: (a) of a nesting counter that is incremented for css.FunctionToken (not inside a function's arguments), (b) of a following `|` (not a namespace prefix), (c) of the identifier by a letter-case predicate of the module (body compares with 'a' and 'z': mixed-case names are left alone, `foreignObject{}` stays)")
+	info := pk.TypesInfo
+	fd := c.fn(rule, pk, "cssMinifier.minifySelectors")
+	if fd == nil {
+		return
+	}
+	g := c.graph(pk, fd)
+	// flags assigned from a comparison with css.ColonToken; counters incremented under css.FunctionToken
+	colonFlags, counters := map[types.Object]bool{}, map[types.Object]bool{}
+	ast.Inspect(fd.Body, func(x ast.Node) bool {
+		switch s := x.(type) {
+		case *ast.AssignStmt:
+			if len(s.Lhs) == 1 && len(s.Rhs) == 1 && strings.Contains(nospace(str(s.Rhs[0])), "css.ColonToken") {
+				if id, ok := s.Lhs[0].(*ast.Ident); ok {
+					if o := info.Uses[id]; o != nil {
+						colonFlags[o] = true
+					} else if o := info.Defs[id]; o != nil {
+						colonFlags[o] = true
+					}
+				}
+			}
+		case *ast.IfStmt:
+			for cur := s; cur != nil; {
+				if strings.Contains(nospace(str(cur.Cond)), "css.FunctionToken") {
+					for _, st := range cur.Body.List {
+						if inc, ok := st.(*ast.IncDecStmt); ok && inc.Tok == token.INC {
+							if id, ok := inc.X.(*ast.Ident); ok {
+								counters[info.Uses[id]] = true
+							}
+						}
+					}
+				}
+				cur = elseIf(cur)
+			}
+		}
+		return true
+	})
+	mentions := func(e ast.Expr, set map[types.Object]bool) bool {
+		hit := false
+		ast.Inspect(e, func(z ast.Node) bool {
+			if id, ok := z.(*ast.Ident); ok && set[info.Uses[id]] {
+				hit = true
+			}
+			return true
+		})
+		return hit
+	}
+	outcome := func(q *flow.Node) *flow.Node {
+		if (q.Kind == flow.KTrue || q.Kind == flow.KFalse) && q.Of != nil && q.Of.Kind == flow.KCond {
+			return q.Of
+		}
+		return nil
+	}
+	pseudo := func(q *flow.Node) bool {
+		t := outcome(q)
+		if t == nil || q.Kind != flow.KTrue {
+			return false
+		}
+		id, ok := ast.Unparen(t.Expr).(*ast.Ident)
+		return ok && colonFlags[info.Uses[id]]
+	}
+	clauses := []struct {
+		name string
+		hit  func(q *flow.Node) bool
+		why  string
+	}{
+		{"not inside the arguments of a function", func(q *flow.Node) bool {
+			t := outcome(q)
+			return t != nil && mentions(t.Expr, counters)
+		}, "an identifier inside the parentheses of a functional pseudo is lower-cased: `::part(Foo)`, `:state(Foo)` and `::highlight(Foo)` name case-sensitive things"},
+		{"not a namespace prefix", func(q *flow.Node) bool {
+			t := outcome(q)
+			if t == nil {
+				return false
+			}
+			chars, strs, _ := c.constsIn(pk, t.Expr)
+			if chars['|'] || strs["|"] {
+				return true
+			}
+			// a flag computed from the next token
+			hit := false
+			ast.Inspect(t.Expr, func(z ast.Node) bool {
+				if id, ok := z.(*ast.Ident); ok {
+					if d := c.singleDef(pk, id); d != nil {
+						ch, st, _ := c.constsIn(pk, d)
+						if ch['|'] || st["|"] {
+							hit = true
+						}
+					}
+				}
+				return true
+			})
+			return hit
+		}, "an identifier in front of `|` is lower-cased: `@namespace Foo url(x);Foo|a{}` no longer refers to the declared prefix"},
+		{"not a mixed-case name", func(q *flow.Node) bool {
+			t := outcome(q)
+			if t == nil {
+				return false
+			}
+			hit := false
+			ast.Inspect(t.Expr, func(z ast.Node) bool {
+				if ce, ok := z.(*ast.CallExpr); ok {
+					if p, d := c.calleeDecl(info, ce); d != nil && d.Body != nil {
+						chars, _, _ := c.constsIn(p, d.Body)
+						if chars['a'] && chars['z'] {
+							hit = true
+						}
+					}
+				}
+				return true
+			})
+			return hit
+		}, "an element name with lower-case letters is lower-cased: `foreignObject{}`, `linearGradient{}` no longer match the SVG elements in an HTML document"},
+	}
+	var heads []*flow.Node
+	for _, q := range g.Nodes {
+		if q.Kind == flow.KRange {
+			heads = append(heads, q)
+		}
+	}
+	n := 0
+	for _, y := range g.Nodes {
+		a := y.Ast()
+		if a == nil || y.Kind != flow.KStmt {
+			continue
+		}
+		for _, call := range findCalls(info, a, false, load.ParseMod+".ToLower") {
+			if len(call.Args) != 1 || !strings.HasSuffix(nospace(str(call.Args[0])), ".Data") {
+				continue
+			}
+			n++
+			for _, cl := range clauses {
+				p := g.Path(flow.Search{From: heads, Goal: func(q *flow.Node) bool { return q == y }, Avoid: func(q *flow.Node) bool { return pseudo(q) || cl.hit(q) }})
+				c.R.Check(p == nil, rule, fmt.Sprintf("css.cssMinifier.minifySelectors/lower-casing#%d: %s", n, cl.name), c.pos(call), "tested on every path that is not the name of a pseudo", cl.why+": "+pathStr(c, g, p))
+			}
+		}
+	}
+	c.R.Floor(rule, "in-place lower-casing of selector identifiers", n, 1)
 }
